@@ -389,6 +389,47 @@ func checkC08(c *hx.Checker) {
 		}
 	}
 	// larger shapes beyond the exhaustive box
+	// extreme integers as axis / perm / index / step values
+	for _, sh := range [][]int{{2, 3}, {3}, {1, 2, 2}} {
+		data := ref.Distinct(ref.F32, sh)
+		r := len(sh)
+		bad := ref.Invalid("extreme integer")
+		for _, e := range extremeInts {
+			for _, rt := range []string{"op", "model"} {
+				p := make([]int64, r)
+				for k := range p {
+					p[k] = int64(k)
+				}
+				p[r-1] = e
+				add("Transpose", []hx.Attr{hx.AInts("perm", p...)}, []*ref.T{data}, nil, bad, true, rt, nil, "perm"+fmt.Sprint(p), "extreme-int")
+				add("Concat", []hx.Attr{hx.AInt("axis", e)}, []*ref.T{data, data}, nil, bad, true, rt, nil, fmt.Sprintf("axis=%d", e), "extreme-int")
+				add("Gather", []hx.Attr{hx.AInt("axis", e)}, []*ref.T{data, ref.I64Vec(0)}, nil, bad, true, rt, nil, fmt.Sprintf("axis=%d", e), "extreme-int")
+				add("Gather", []hx.Attr{hx.AInt("axis", 0)}, []*ref.T{data, ref.I64Vec(0, e)}, nil, bad, true, rt, nil, fmt.Sprintf("index=%d", e), "extreme-int")
+				add("Slice", nil, []*ref.T{data, ref.I64Vec(0), ref.I64Vec(1), ref.I64Vec(e), ref.I64Vec(1)}, nil, bad, true, rt, nil, fmt.Sprintf("axes=[%d]", e), "extreme-int", "axis-out-of-range")
+				tg := make([]int64, r)
+				for k := range tg {
+					tg[k] = int64(sh[k])
+				}
+				tg[0] = e
+				if e < 0 || sh[0] != 1 {
+					// (a huge positive size on an extent-1 axis is a valid request that merely cannot be allocated: excluded)
+					add("Expand", nil, []*ref.T{data, ref.I64Vec(tg...)}, nil, bad, true, rt, nil, "->"+fmt.Sprint(tg), "extreme-int")
+				}
+				for _, se := range [][2]int64{{0, int64(sh[0])}, {int64(sh[0]) - 1, -int64(sh[0]) - 1}, {0, 1}, {1, math.MaxInt64}} {
+					spec := ref.SliceSpec{Start: se[0], End: se[1], Step: e, Axis: 0}
+					exp, err := ref.Slice(data, []ref.SliceSpec{spec})
+					extra := []string{"extreme-int", "extreme-step"}
+					if err == nil && exp.Shape[0] == 1 {
+						extra = append(extra, "sliced-extent=1")
+					}
+					if e < 0 {
+						extra = append(extra, "step<0")
+					}
+					add("Slice", nil, []*ref.T{data, ref.I64Vec(se[0]), ref.I64Vec(se[1]), ref.I64Vec(0), ref.I64Vec(e)}, exp, err, e >= 1 && err == nil && ref.NElem(exp.Shape) > 0, rt, nil, fmt.Sprintf("%d:%d:%d", se[0], se[1], e), extra...)
+				}
+			}
+		}
+	}
 	for _, sh := range [][]int{{4, 5, 6}, {7, 2, 9}, {2, 3, 4, 5}, {33, 4}} {
 		data := ref.Distinct(ref.F32, sh)
 		r := len(sh)
